@@ -616,7 +616,20 @@ func ConvertTypedValueToYANGType(schemaElem *sdcpb.SchemaElem, tv *sdcpb.TypedVa
 	case schemaElem.GetLeaflist() != nil:
 		switch tv.Value.(type) {
 		case *sdcpb.TypedValue_LeaflistVal:
-			return tv, nil
+			// convert the elements to the type of the leaf-list as well
+			elemSchema := &sdcpb.SchemaElem{Schema: &sdcpb.SchemaElem_Field{Field: &sdcpb.LeafSchema{Type: schemaElem.GetLeaflist().GetType()}}}
+			result := &sdcpb.ScalarArray{Element: make([]*sdcpb.TypedValue, 0, len(tv.GetLeaflistVal().GetElement()))}
+			for _, e := range tv.GetLeaflistVal().GetElement() {
+				ce, err := ConvertTypedValueToYANGType(elemSchema, e)
+				if err != nil {
+					return nil, err
+				}
+				result.Element = append(result.Element, ce)
+			}
+			return &sdcpb.TypedValue{
+				Timestamp: tv.GetTimestamp(),
+				Value:     &sdcpb.TypedValue_LeaflistVal{LeaflistVal: result},
+			}, nil
 		}
 		return &sdcpb.TypedValue{
 			Timestamp: tv.GetTimestamp(),
@@ -630,7 +643,14 @@ func ConvertTypedValueToYANGType(schemaElem *sdcpb.SchemaElem, tv *sdcpb.TypedVa
 		switch schemaElem.GetField().GetType().GetType() {
 		default:
 			return tv, nil
-		case "string", "identityref":
+		case "string":
+			return tv, nil
+		case "identityref", "union":
+			// a value given as string is converted to the typed value that the
+			// other input forms (json, json_ietf) yield, otherwise equal values do not compare equal
+			if _, ok := tv.Value.(*sdcpb.TypedValue_StringVal); ok {
+				return convertStringToTv(schemaElem.GetField().GetType(), tv.GetStringVal(), tv.GetTimestamp())
+			}
 			return tv, nil
 		case "uint64", "uint32", "uint16", "uint8":
 			i, err := strconv.ParseUint(TypedValueToString(tv), 10, 64)
@@ -653,8 +673,6 @@ func ConvertTypedValueToYANGType(schemaElem *sdcpb.SchemaElem, tv *sdcpb.TypedVa
 			}
 			return ctv, nil
 		case "enumeration":
-			return tv, nil
-		case "union":
 			return tv, nil
 		case "boolean":
 			v, err := strconv.ParseBool(TypedValueToString(tv))
